@@ -169,7 +169,13 @@ func textSafeString(v ssa.Value, depth int) (bool, string) {
 		switch calleeName(x) {
 		case "(net.IP).String", "strconv.Itoa", "strconv.FormatInt", "strconv.FormatUint", "(net.HardwareAddr).String", "encoding/hex.EncodeToString":
 			return true, ""
-		case "fmt.Sprintf", "fmt.Sprint":
+		case "fmt.Sprintf":
+			// constant format whose verbs are all numeric (%d %x %X with flags/width): digits and hex letters only
+			if c, ok := resolveConstString(x.Common().Args[0]); ok && numericVerbsOnly(c) {
+				return true, ""
+			}
+			return false, "fmt.Sprintf with a non-constant or non-numeric format"
+		case "fmt.Sprint":
 			return false, "fmt formatting of arbitrary operands is not analysed"
 		}
 		return false, "result of " + calleeName(x)
@@ -596,4 +602,36 @@ func checkDumpLoadSameOption(prog *core.Program, r5 *core.RuleRun) {
 			}
 		}
 	}
+}
+
+// resolveConstString sees through a local variable holding a constant string.
+func resolveConstString(v ssa.Value) (string, bool) {
+	if c, ok := v.(*ssa.Const); ok && c.Value != nil {
+		return strings.Trim(c.Value.ExactString(), "\""), true
+	}
+	return "", false
+}
+
+func numericVerbsOnly(f string) bool {
+	for i := 0; i < len(f); i++ {
+		if f[i] != '%' {
+			if f[i] == '"' || f[i] == '\\' || f[i] < 0x20 {
+				return false
+			}
+			continue
+		}
+		i++
+		for i < len(f) && (f[i] == '.' || f[i] == '0' || f[i] == '+' || f[i] == '-' || f[i] == '#' || (f[i] >= '1' && f[i] <= '9')) {
+			i++
+		}
+		if i >= len(f) {
+			return false
+		}
+		switch f[i] {
+		case 'd', 'x', 'X', 'o', 'b', '%':
+		default:
+			return false
+		}
+	}
+	return true
 }
